@@ -495,6 +495,43 @@ pub fn o11(dir: &str, thorough: bool, seed: u64) {
             }
         }
     }
+    // the laws on wide networks (implementation only): a small core plus frozen pad variables, so that the state space
+    // exceeds 2^53 and set sizes are no longer exactly representable as f64; one huge and one tiny wild-card set
+    let widths: Vec<usize> = if thorough { vec![40, 54, 58, 61] } else { vec![54, 60] };
+    for (wi, npad) in widths.iter().enumerate() {
+        for (name, aeon) in crate::eval::NETWORKS.iter() {
+            if !thorough && (rng.below(3) != 0 && *name != "toggle" && *name != "d6") {
+                continue;
+            }
+            let mut text = String::from(*aeon);
+            for i in 0..*npad {
+                text.push_str(&format!("p{i:02} -> p{i:02}\n$p{i:02}: p{i:02}\n"));
+            }
+            let Ok(bn) = BooleanNetwork::try_from(text.as_str()) else { continue };
+            let Ok(graph) = get_extended_symbolic_graph(&bn, 0) else { continue };
+            let core: Vec<String> = bn.variables().map(|v| bn.get_variable_name(v).clone()).filter(|n| !n.starts_with('p')).collect();
+            let pads0: String = (0..*npad).map(|i| format!("~p{i:02}")).collect::<Vec<_>>().join(" & ");
+            for round in 0..(if thorough { 4 } else { 2 }) {
+                let a = rng.pick(&core).clone();
+                let b = rng.pick(&core).clone();
+                let lit = |r: &mut Rng, v: &str| if r.below(2) == 0 { v.to_string() } else { format!("~{v}") };
+                let huge = match rng.below(3) { 0 => lit(&mut rng, &a), 1 => format!("({} & {})", lit(&mut rng, &a), lit(&mut rng, &b)), _ => format!("({} | {})", lit(&mut rng, &a), lit(&mut rng, &b)) };
+                let tiny = match rng.below(3) { 0 => pads0.clone(), 1 => format!("{} & {pads0}", lit(&mut rng, &b)), _ => format!("({} | {}) & {pads0}", lit(&mut rng, &a), lit(&mut rng, &b)) };
+                let (fs, ft) = if (round + wi) % 2 == 0 { (tiny.clone(), huge.clone()) } else { (huge.clone(), tiny.clone()) };
+                let (Ok(sset), Ok(tset)) = (model_check_formula_dirty(&fs, &graph), model_check_formula_dirty(&ft, &graph)) else { continue };
+                let mut ctx = Ctx::new();
+                ctx.insert(s("S"), sset);
+                ctx.insert(s("T"), tset);
+                for (l, r) in laws.iter() {
+                    let x = model_check_extended_formula_dirty(l, &graph, &ctx);
+                    let y = model_check_extended_formula_dirty(r, &graph, &ctx);
+                    out.count("wide_law");
+                    out.oracle(x.is_ok() && x == y, "C11", "wide network: fixed-point law / duality fails",
+                        &format!("{name}+{npad} frozen variables: {l} = {r} S={fs} T={ft}"));
+                }
+            }
+        }
+    }
     // the laws on the bundled benchmark-size models (implementation only)
     let models: Vec<&str> = if thorough {
         vec!["/repo/test/model-010-13var-2in.aeon", "/repo/test/model-022-17var-5in.aeon"]
@@ -542,7 +579,7 @@ pub fn o12(dir: &str, thorough: bool, seed: u64) {
         ("!{x}: AX {x}", "!{x}: AX ({x} & {x})"),
         ("EF (!{x}: AX {x})", "EF (!{x}: AX ({x} | false))"),
         ("~(!{y}: AG EF {y}) | (!{z}: AX {z})", "~(!{y}: AG (true & EF {y})) | (!{z}: (true & AX {z}))"),
-        ("3{x}: @{x}: ((!{y}: AX {y}) & a)", "3{x}: @{x}: ((!{y}: AX ({y} & true)) & a)"),
+        ("3{x}: @{x}: ((!{y}: AX {y}) & $P)", "3{x}: @{x}: ((!{y}: AX ({y} & true)) & $P)"),
         ("3{x}: @{x}: (!{y}: AG EF {y})", "3{x}: @{x}: (!{y}: AG EF ({y} | false))"),
         ("3{x} in %d%: @{x}: (!{y}: AX {y})", "3{x} in %d%: @{x}: (!{y}: AX ({y} & {y}))"),
         ("3{x} in %d%: (!{y}: AX {y})", "3{x} in %d%: (!{y}: AX ({y} & {y}))"),
@@ -564,7 +601,7 @@ pub fn o12(dir: &str, thorough: bool, seed: u64) {
         ("!{x}: EX (!{y}: AX {x})", "!{x}: EX (!{y}: AX ({x} & true))"),
         ("3{x}: !{y}: AG EF {x}", "3{x}: !{y}: AG EF ({x} & {x})"),
         ("!{x}: EX (!{y}: AG EF {x})", "!{x}: EX (!{y}: AG (true & EF {x}))"),
-        ("V{x}: (a | (!{y}: AG EF {x}))", "V{x}: (a | (!{y}: AG EF ({x} | false)))"),
+        ("V{x}: ($P | (!{y}: AG EF {x}))", "V{x}: ($P | (!{y}: AG EF ({x} | false)))"),
         ("3{x} in %d%: !{y}: AX {x}", "3{x} in %d%: !{y}: AX ({x} & {x})"),
     ];
     for _ in 0..rounds {
@@ -575,6 +612,8 @@ pub fn o12(dir: &str, thorough: bool, seed: u64) {
             let mut batch_l: Vec<String> = Vec::new();
             let mut batch_r: Vec<String> = Vec::new();
             for (l, r) in &pats {
+                // `$P` stands for the first network variable
+                let (l, r) = (&l.replace("$P", &xg.var_names[0]), &r.replace("$P", &xg.var_names[0]));
                 let a = run_rec(&mut out, &xg, "ext_dirty", &[s(l)], &ctx);
                 let b = run_rec(&mut out, &xg, "ext_dirty", &[s(r)], &ctx);
                 out.count("pattern_pair");
@@ -757,14 +796,33 @@ pub fn o18(dir: &str, thorough: bool, seed: u64) {
         for xg in graphs(thorough, &[0, 1, 2]) {
             begin_graph(&mut out, &xg);
             let steady_free = !has_steady(&xg);
-            for i in 0..6 {
-                let frag = !steady_free || i % 2 == 0;
-                let t = if frag {
-                    closed_tree(&mut rng, &xg, false, 2, 8, Some((&frag_un, &frag_bin)))
+            // formulae of the fragment shaped like (or close to) the patterns the evaluator short-cuts
+            let mut shaped: Vec<String> = Vec::new();
+            if xg.k >= 1 {
+                let p0 = xg.var_names[0].clone();
+                let us = ["~", "EF", "AG"];
+                let u = us[rng.below(3)];
+                let u2 = us[rng.below(3)];
+                let bs = ["&", "|", "^", "=>", "<=>", "EU", "AW"];
+                let b = bs[rng.below(bs.len())];
+                shaped.push(format!("!{{x}}: {u} {{x}}"));
+                shaped.push(format!("!{{x}}: AG {{x}}"));
+                shaped.push(format!("!{{x}}: {u} {u2} {{x}}"));
+                shaped.push(format!("3{{x}}: @{{x}}: {u} {{x}}"));
+                shaped.push(format!("V{{x}}: @{{x}}: ({{x}} {b} {p0})"));
+                shaped.push(format!("!{{x}}: ({p0} {b} {{x}})"));
+                shaped.push(format!("EF (!{{x}}: {u} {{x}})"));
+                shaped.push(format!("~(!{{x}}: AG {{x}}) {b} {p0}"));
+            }
+            for i in 0..(6 + shaped.len()) {
+                let frag = i >= 6 || !steady_free || i % 2 == 0;
+                let f = if i >= 6 {
+                    shaped[i - 6].clone()
+                } else if frag {
+                    closed_tree(&mut rng, &xg, false, 2, 8, Some((&frag_un, &frag_bin))).to_string()
                 } else {
-                    closed_tree(&mut rng, &xg, false, 2, 8, None)
+                    closed_tree(&mut rng, &xg, false, 2, 8, None).to_string()
                 };
-                let f = t.to_string();
                 // the attractor pattern contains AG EF only, the steady-state pattern contains AX (excluded)
                 let a = run_rec(&mut out, &xg, "unsafe_ex", &[f.clone()], &Ctx::new());
                 let b = run_rec(&mut out, &xg, "plain_dirty", &[f.clone()], &Ctx::new());
